@@ -371,6 +371,7 @@ impl Run {
             let w = decode_wire(conn);
             for (t, frag, dst, src) in w.frags {
                 let mut d = codec::decode_fragment(&frag, false);
+        d["peer"] = json!(peer_check(&frag, false));
                 let o = d.as_object_mut().unwrap();
                 o.insert("t".into(), json!(t));
                 o.insert("bid".into(), json!(self.intern.id(&frag)));
